@@ -93,6 +93,8 @@ def ev(fn, n, atom=None, depth=0):
         v = atom(n)
         if v is not None:
             return v
+    if n.cv is not None and k != "DeclRefExpr":
+        return n.cv  # constant-folded by clang (pointers constants such as (fiber_t*)-1 keep their signed value)
     if k in ("ParenExpr",):
         return ev(fn, n.kids[0], atom, depth + 1)
     if k == "CallExpr" and n.callee == "__builtin_expect":
